@@ -35,10 +35,7 @@ def initR (hdr : List String) : RState :=
   let latch := (hdrVal hdr "latch").bind String.toNat?
   let s0 := State.init latch
   let s1 := if latch = some 0 then runToIdle s0 0 16 else s0
-  let s2 := match (hdrVal hdr "preset").bind String.toNat? with
-    | some w => { s1 with futex := w }
-    | none => s1
-  { s := s2, addr := [], tids := [], wrapMode := hdrVal hdr "mode" == some "wrap" }
+  { s := s1, addr := [], tids := [], wrapMode := hdrVal hdr "mode" == some "wrap" }
 
 def showPc (p : Pc) : String := reprStr p
 
@@ -56,6 +53,10 @@ def stepObs (r : RState) (o : Obs) : Except String RState :=
   | some (.spawn _) | some (.join _) | some .exit => .ok r
   | some (.race _) => .ok r          -- reported by the check itself (HB monitor on the value storage)
   | some (.ev ("ORACLE" :: _)) | some (.ev ("stats" :: _)) => .ok r
+  | some (.ev ["preset", v]) =>      -- harness mode `wrap` writes the futex word directly (regression for the counter carry)
+    match v.toNat? with
+    | some v => if r.wrapMode then .ok { r with s := { r.s with futex := v } } else .error "preset outside wrap mode"
+    | none => .error "bad preset"
   | some (.ev ["call", "set", v]) =>
     match v.toNat? with
     | none => .error "bad value"
